@@ -829,14 +829,14 @@ def run(ctx):
     evaluate(ctx, rt, res)
     res['scopes']['roundtrip'] = len(rt)
     # (e) seeded random streams
-    gen = [random_stream_case(rng) for _ in range(150000 if deep else 10000)]
+    gen = [random_stream_case(rng) for _ in range(250000 if deep else 16000)]
     outs = evaluate(ctx, gen, res)
     for c, o in list(zip(gen, outs))[:3]:
         res.sample({'case': model_line(c), 'impl': fmt_out(o)})
     res['scopes']['generated'] = len(gen)
     # (f) MessageSession on the fake transport: a sample of everything above
     pool = ex + gen
-    k = min(len(pool), 30000 if deep else 3000)
+    k = min(len(pool), 40000 if deep else 4000)
     ss = [as_sess(c, rng) for c in rng.sample(pool, k)]
     ss += [as_sess(c, rng) for c in default_limit_cases(ctx.facts)]
     souts = evaluate(ctx, ss, res)
